@@ -1118,8 +1118,18 @@ func checkDidDocumentValid(p *Prog, r *Report, kp func(string, string) string) {
 		dup := false
 		for _, b := range vc.Blocks {
 			for _, in := range b.Instrs {
-				if l, ok := in.(*ssa.Lookup); ok && l.CommaOk {
-					dup = true
+				// a membership test on a set that the loop fills under the same key: `_, dup := set[c]` / `if seen[c]` … `set[c] = …`
+				if l, ok := in.(*ssa.Lookup); ok && inCycle(b) {
+					if _, isMap := l.X.Type().Underlying().(*types.Map); !isMap || l.Referrers() == nil || len(*l.Referrers()) == 0 {
+						continue
+					}
+					for _, b2 := range vc.Blocks {
+						for _, in2 := range b2.Instrs {
+							if mu, ok := in2.(*ssa.MapUpdate); ok && inCycle(b2) && sameMapValue(mu.Map, l.X) && mu.Key == l.Index {
+								dup = true
+							}
+						}
+					}
 				}
 			}
 		}
